@@ -60,6 +60,12 @@ CLAIMED["C13"] = dict(
    technique="symbolic execution of parser + VM on symbolic bytes + SMT string equality",
    ref="DESIGN.md §5 C13")
 
+CLAIMED["C18"] = dict(
+   text="Bounded model checking of the st command: lists of 1..2 (quick) / 3 (thorough) attribute edits built from every accepted spelling (11 assignment spellings incl. quoted / namespaced names, '*' and '*k' multipliers, parenthesised values; 7 modification spellings for + += - -=) and 4 separators, with the numeric values as symbolic decimal digits, run through the real parser and VM; the callback log (count, order, kind, name, operator, value, multiplier) is compared with the written list as SMT verification conditions over the digit symbols.",
+   note="Values are 1-2 digit integers (dice, floats and general expressions as values are covered only through the parenthesised form); lists longer than 3 edits and mixed spellings beyond the enumerated forms are outside. 'Nothing else is reinterpreted as an edit' is checked only as 'the number of callbacks equals the number of written edits and the list is consumed entirely'.",
+   technique="symbolic execution of parser + VM with symbolic digit bytes + SMT",
+   ref="DESIGN.md §5 C18")
+
 NA = {
 }
 
